@@ -355,7 +355,7 @@ vp::Verdict checkDfs(const DfsCase &c, vp::Ctx &ctx)
 /// thorough tier: every (capacity <= maxCap, items <= capacity+extra, foreign wake-up vector of
 /// length <= maxForeign) x every schedule up to the pre-emption bound
 struct ExhCase {
-    unsigned maxCap = 2, extra = 2, maxForeign = 2, bound = 4;
+    unsigned maxCap = 2, extra = 1, maxForeign = 2, bound = 4;
 };
 
 std::string showExh(const ExhCase &c)
